@@ -2,6 +2,7 @@
 C16 — byte codecs are inverse and bit-exact for every width, order and signedness.
 -/
 import UH.Model.Codec
+import UH.Proofs.Utf
 namespace UH.C16
 open UH
 
@@ -105,6 +106,38 @@ theorem decode_encode (n : Int) (w : Nat) (hw : 0 < w) (b : List UInt8) (big sig
           rw [hhalfn]; omega
         exact_mod_cast this
       rw [if_pos hc]; omega
+
+/-! ### strings ⇄ bytes (UTF-8 / UTF-16 / UTF-32) -/
+
+/-- **decoding inverts encoding** for every string (list of Unicode scalar values): UTF-8; UTF-16 and UTF-32 with
+an explicit byte order (no byte-order mark is written, and a leading U+FEFF / U+FFFE is ordinary payload); and
+without an explicit order (a little-endian BOM is written, recognised and removed) -/
+theorem utf_decode_encode (width : Nat) (order : Option Bool) (s : List Nat) (hs : ∀ c ∈ s, isScalar c = true)
+    (b : List UInt8) (h : utfEncode width order s = some b) : utfDecode width order b = some s :=
+  Utf.utf_decode_encode width order s hs b h
+
+/-- the three encodings taken one at a time -/
+theorem utf8_decode_encode (s : List Nat) (hs : ∀ c ∈ s, isScalar c = true) : utf8Decode (utf8Encode s) = some s :=
+  Utf.utf8_decode_encode s hs
+theorem utf16_decode_encode (big : Bool) (s : List Nat) (hs : ∀ c ∈ s, isScalar c = true) :
+    utf16Decode big (utf16Encode big s) = some s := Utf.utf16_decode_encode big s hs
+theorem utf32_decode_encode (big : Bool) (s : List Nat) (hs : ∀ c ∈ s, isScalar c = true) :
+    utf32Decode big (utf32Encode big s) = some s := Utf.utf32_decode_encode big s hs
+
+/-- every width / order combination the module offers does encode (the hypothesis of `utf_decode_encode` is met) -/
+theorem utfEncode_total (s : List Nat) :
+    (utfEncode 1 none s).isSome ∧ (∀ o, (utfEncode 2 o s).isSome) ∧ (∀ o, (utfEncode 4 o s).isSome) := by
+  refine ⟨rfl, ?_, ?_⟩ <;> intro o <;> cases o <;> rfl
+
+-- examples: a leading U+FEFF survives the explicit-order converters; the BOM form removes exactly its own mark;
+-- strict decoding rejects surrogates, over-long forms and odd lengths
+example : utfDecode 2 (some true) (utf16Encode true [0xFEFF, 0x61]) = some [0xFEFF, 0x61] ∧
+    utfDecode 2 (some false) (utf16Encode false [0xFFFE, 0x61]) = some [0xFFFE, 0x61] ∧
+    utfDecode 4 (some true) (utf32Encode true [0xFEFF]) = some [0xFEFF] ∧
+    (utfEncode 2 none [0xFEFF, 0x1F600]).bind (utfDecode 2 none) = some [0xFEFF, 0x1F600] := by decide +kernel
+example : utf8Decode [0xED, 0xA0, 0x80] = none ∧ utf8Decode [0xC0, 0x80] = none ∧ utf8Decode [0xF4, 0x90, 0x80, 0x80] = none ∧
+    utf16Decode false [0x00, 0xD8] = none ∧ utf16Decode false [0x61] = none ∧ utf32Decode false [0, 0xD8, 0, 0] = none := by
+  decide +kernel
 
 -- examples
 example : intToBytes (-1) 2 false true = some [255, 255] ∧ intToBytes 258 2 true false = some [1, 2] ∧
